@@ -112,6 +112,8 @@ Init ==
 (*   no-restore         C10  finishing a local span leaves the parent cursor on it                 *)
 (*   ctx-last           C11  SpanContext::from_span reads the last token item, not the first       *)
 (*   root-ignores-ready C16  Span::root does not ask whether a reporter is installed               *)
+(*   span-before-inner  C13  an adapter dropped while pending finishes its span before its inner   *)
+(*                           future (and the span that future holds) is torn down                   *)
 (*   push-once          C17  a captured set can be pushed to one parent only; later pushes are lost *)
 M_(x) == Mut = x
 Sampled(tok) == SelectSeq(tok, LAMBDA it : it.smp)
@@ -481,7 +483,7 @@ CtxS(t, h) ==
 (* the span before the local-parent guard; FixInSpan releases the guard first.                     *)
 FNew(t, h, kind) ==
   LET f == New(t) IN
-  /\ futs' = A!Put(futs, f, [h |-> h, kind |-> kind, done |-> FALSE, polls |-> 0])
+  /\ futs' = A!Put(futs, f, [h |-> h, kind |-> kind, done |-> FALSE, polls |-> 0, held |-> 0])
   /\ Bump(t)
   /\ Begin(t, <<>>, Ev(t, "fnew") @@ [f |-> f, h |-> h, kind |-> kind], Rt(t, "fnew"))
   /\ UNCHANGED <<spans, lsets, pushed, stack, hs, natt>>
@@ -501,7 +503,18 @@ Inner(t, ln, has, inner, n) ==
          LET tok == IF has /\ ~ln.lc THEN CurTok(ln) ELSE <<>>
              ctx == IF tok # <<>> THEN [some |-> TRUE, tr |-> tok[1].tr, id |-> tok[1].par, smp |-> tok[1].smp] ELSE [some |-> FALSE] IN
          <<ln, <<Ev(t, "ctxl"), Rt(t, "ctxl") @@ [ctx |-> ctx]>>>>
+    [] inner = "hold" ->
+         \* the inner future creates a span under the local parent and keeps it across polls
+         LET tok == IF has /\ ~ln.lc THEN CurTok(ln) ELSE <<>> IN
+         <<ln, <<Ev(t, "childl") @@ [h |-> n], Rt(t, "childl") @@ (IF has /\ ~ln.lc /\ tok # <<>> THEN [h |-> n, id |-> n] ELSE [h |-> n])>>>>
     [] OTHER -> <<ln, <<>>>>
+
+\* the span a scripted inner future holds is finished when the inner completes or is dropped -
+\* InSpan drops its inner before its span (field order)
+HeldCmds(c) ==
+  IF c = 0 THEN <<>>
+  ELSE LET s == spans[c] tok == IF s.st = "live" THEN Sampled(s.tok) ELSE <<>> IN
+       IF tok # <<>> THEN <<Send(Submit(<<[id |-> c, par |-> 0, k |-> "span", n |-> c, props |-> s.props]>>, tok))>> ELSE <<>>
 
 FPoll(t, f, inner, fin) ==
   LET fu == futs[f] h == fu.h g == New(t) n == New(t) + 1
@@ -516,8 +529,18 @@ FPoll(t, f, inner, fin) ==
       eop == fu.kind = "eop"
       eok == eop /\ has /\ base.smp /\ Len(base.q) < QCap
       base1 == IF eok THEN [base EXCEPT !.q = Append(@, [id |-> g, par |-> base.nxt, k |-> "span", n |-> g, props |-> <<>>]), !.nxt = g] ELSE base
-      r == Inner(t, base1, has, inner, n)
+      holdNow == inner = "hold" /\ fu.held = 0
+      r == Inner(t, base1, has, IF inner = "hold" /\ ~holdNow THEN "none" ELSE inner, n)
       ln == IF eok THEN [r[1] EXCEPT !.nxt = base.nxt] ELSE r[1]
+      htok == IF has /\ ~base1.lc THEN CurTok(base1) ELSE <<>>
+      spans1 == IF holdNow THEN A!Put(spans, n, [tok |-> htok, cid |-> 0, props |-> <<>>, st |-> IF has /\ ~base1.lc THEN "live" ELSE "noop", own |-> t])
+                ELSE spans
+      held == IF holdNow THEN n ELSE fu.held
+      \* the inner completes: what it holds goes first
+      rel == IF fin /\ held # 0 THEN held ELSE 0
+      relcmds == IF rel = 0 THEN <<>>
+                 ELSE LET s == spans1[rel] tk == IF s.st = "live" THEN Sampled(s.tok) ELSE <<>> IN
+                      IF tk # <<>> THEN <<Send(Submit(<<[id |-> rel, par |-> 0, k |-> "span", n |-> rel, props |-> s.props]>>, tk))>> ELSE <<>>
       finish == fin /\ ~fu.done /\ ~eop
       sub == Sampled(tok)
       locals == IF live /\ sub # <<>> THEN <<Send(Submit(ln.q, sub))>> ELSE <<>>
@@ -525,13 +548,15 @@ FPoll(t, f, inner, fin) ==
       stok == IF finish /\ sp.st = "live" THEN Sampled(sp.tok) ELSE <<>>
       own == (IF stok # <<>> THEN <<Send(Submit(<<[id |-> h, par |-> 0, k |-> "span", n |-> h, props |-> sp.props]>>, stok))>> ELSE <<>>) \o
              (IF finish /\ sp.st = "live" /\ sp.cid # 0 THEN <<Force([k |-> "commit", c |-> sp.cid])>> ELSE <<>>)
-      cmds == IF FixInSpan THEN locals \o own ELSE own \o locals
+      cmds == relcmds \o (IF FixInSpan THEN locals \o own ELSE own \o locals)
       call == Ev(t, "fpoll") @@ [f |-> f, g |-> g, inner |-> inner, fin |-> fin]
-      evs == <<call>> \o r[2] \o <<Ev(t, "pollend") @@ [f |-> f, fin |-> fin]>>
-      gh == A!AbsRun(a, evs, 1) IN
+      evs == <<call>> \o r[2] \o <<Ev(t, "pollend") @@ [f |-> f, fin |-> fin] @@ (IF rel # 0 THEN [held |-> rel] ELSE A!EmptyFn)>>
+      gh == A!AbsRun(a, evs, 1)
+      spans2 == IF rel # 0 THEN [spans1 EXCEPT ![rel].st = "done"] ELSE spans1 IN
   /\ fu.polls < MaxPolls
-  /\ futs' = [futs EXCEPT ![f].done = @ \/ finish, ![f].polls = @ + 1]
-  /\ spans' = IF finish THEN [spans EXCEPT ![h].st = "done"] ELSE spans
+  /\ holdNow => NSpans < MaxSpans
+  /\ futs' = [futs EXCEPT ![f].done = @ \/ finish, ![f].polls = @ + 1, ![f].held = IF rel # 0 THEN 0 ELSE held]
+  /\ spans' = IF finish THEN [spans2 EXCEPT ![h].st = "done"] ELSE spans2
   /\ stack' = IF live \/ ~hasTop THEN stack ELSE SetTop(t, ln)
   /\ nid' = [nid EXCEPT ![t] = @ + 2]
   /\ hist' = Append(hist, call)
@@ -543,11 +568,14 @@ FDrop(t, f) ==
   LET fu == futs[f] h == fu.h sp == spans[h]
       go == ~fu.done /\ fu.kind # "eop" /\ sp.st = "live"
       stok == IF go THEN Sampled(sp.tok) ELSE <<>>
-      cmds == (IF stok # <<>> THEN <<Send(Submit(<<[id |-> h, par |-> 0, k |-> "span", n |-> h, props |-> sp.props]>>, stok))>> ELSE <<>>) \o
-              (IF go /\ sp.cid # 0 THEN <<Force([k |-> "commit", c |-> sp.cid])>> ELSE <<>>) IN
-  /\ futs' = [futs EXCEPT ![f].done = TRUE, ![f].polls = MaxPolls]
-  /\ spans' = IF fu.kind # "eop" /\ Usable(h) THEN [spans EXCEPT ![h].st = "done"] ELSE spans
-  /\ Begin(t, cmds, Ev(t, "fdrop") @@ [f |-> f], Rt(t, "fdrop"))
+      own == (IF stok # <<>> THEN <<Send(Submit(<<[id |-> h, par |-> 0, k |-> "span", n |-> h, props |-> sp.props]>>, stok))>> ELSE <<>>) \o
+             (IF go /\ sp.cid # 0 THEN <<Force([k |-> "commit", c |-> sp.cid])>> ELSE <<>>)
+      \* the adapter's fields are dropped in order: the inner (and what it holds) before the span
+      cmds == IF M_("span-before-inner") THEN own \o HeldCmds(fu.held) ELSE HeldCmds(fu.held) \o own
+      spans1 == IF fu.held # 0 THEN [spans EXCEPT ![fu.held].st = "done"] ELSE spans IN
+  /\ futs' = [futs EXCEPT ![f].done = TRUE, ![f].polls = MaxPolls, ![f].held = 0]
+  /\ spans' = IF fu.kind # "eop" /\ Usable(h) THEN [spans1 EXCEPT ![h].st = "done"] ELSE spans1
+  /\ Begin(t, cmds, Ev(t, "fdrop") @@ [f |-> f] @@ (IF fu.held # 0 THEN [held |-> fu.held] ELSE A!EmptyFn), Rt(t, "fdrop"))
   /\ UNCHANGED <<lsets, pushed, stack, hs, nid, natt>>
 
 \* thread exit: the sender's destructor flushes the overflow list, then the producer half goes away
@@ -735,7 +763,7 @@ Spawn(t) ==
 ----------------------------------------------------------------------------
 (* programs *)
 M(n) == n \in Menu
-Bound(h) == \E f \in DOMAIN futs : futs[f].h = h
+Bound(h) == \E f \in DOMAIN futs : futs[f].h = h \/ futs[f].held = h
 \* nobody is inside a call on that span / adapter (a caller needs the object for the call's duration)
 FreeH(h) == \A u \in Threads : IF inop[u] = None THEN TRUE ELSE ~("h" \in DOMAIN inop[u] /\ inop[u].h = h)
 FreeF(f) == \A u \in Threads : IF inop[u] = None THEN TRUE ELSE ~("f" \in DOMAIN inop[u] /\ inop[u].f = f)
